@@ -415,10 +415,12 @@ inductive MOp where
   | isEmpty                 -- `m.is_empty()`      one `data()`
   | snapshot                -- `copy m`, `'{m}'`   one `data()`; flattened k v k v …
   | eqTo (es : List (Int × Int)) -- `m == {…}`     (order-insensitive) one `data()`
+  | setAt (i : Nat) (k v : Int) -- `m[i] = (k, v)`  one `data_mut()` (run_index_assign): replaces the
+                            --   entry at position i; error if i is out of range or k is another entry's key
   deriving DecidableEq, Repr
 
 def MOp.isWrite : MOp → Bool
-  | .insert _ _ | .insert1 _ | .put _ _ | .remove _ | .clear | .sort | .extend _ => true
+  | .insert _ _ | .insert1 _ | .put _ _ | .remove _ | .clear | .sort | .extend _ | .setAt _ _ _ => true
   | _ => false
 
 abbrev Assoc := List (Int × Int)
@@ -448,6 +450,10 @@ def valRes : Option Int → Res
   | some v => if v = nullV then .null else .int v
   | none => .null
 
+def Assoc.indexOf (k : Int) : Assoc → Nat → Option Nat
+  | [], _ => none
+  | (k', _) :: rest, n => if k' = k then some n else Assoc.indexOf k rest (n + 1)
+
 def MOp.sem : MOp → Assoc → Assoc × Res
   | .insert k v, m => (Assoc.put k v m, valRes (Assoc.find k m))
   | .insert1 k, m => (Assoc.put k nullV m, valRes (Assoc.find k m))
@@ -463,6 +469,12 @@ def MOp.sem : MOp → Assoc → Assoc × Res
         | none => .null)
   | .sort, m => (Assoc.sortKeys m, .unit)
   | .extend es, m => (es.foldl (fun acc e => Assoc.put e.1 e.2 acc) m, .unit)
+  | .setAt i k v, m =>
+    if i < m.length then
+      match Assoc.indexOf k m 0 with
+      | some j => if j = i then (m.set i (k, v), .unit) else (m, .err)
+      | none => (m.set i (k, v), .unit)
+    else (m, .err)
   | .isEmpty, m => (m, .bool m.isEmpty)
   | .snapshot, m => (m, .ints (m.flatMap (fun e => [e.1, e.2])))
   | .eqTo es, m =>
